@@ -83,8 +83,41 @@ Fixpoint flatV (g : cgoal) : Prop :=
   | CFresh k a => k = BFS /\ flatV a
   | CCall k _ _ => k = BFS
   | CClosure k _ _ => k = BFS
+  | CEveryg k _ _ _ _ => k = BFS
   | _ => False
   end.
+
+(* the bodies of a for-loop, one per element, elaborated when the loop is reached (the local function of [start]) *)
+Definition everyg_mk (defs : list (nat * def)) (k : kind) (rho : env) (x : nat) (css : list (list goal)) : list term -> nat -> list cgoal * nat :=
+  fix mk (es : list term) (nv : nat) : list cgoal * nat :=
+  match es with
+  | [] => ([], nv)
+  | e :: r =>
+      let '(c, n1) := elab defs efuel k ((x, e) :: rho) (GConj (map GConj css)) nv in
+      let '(cs, n2) := mk r n1 in (c :: cs, n2)
+  end.
+Lemma everyg_mk_cons defs k rho x css e r nv : everyg_mk defs k rho x css (e :: r) nv =
+  (let '(c, n1) := elab defs efuel k ((x, e) :: rho) (GConj (map GConj css)) nv in
+   let '(cs, n2) := everyg_mk defs k rho x css r n1 in (c :: cs, n2)).
+Proof. reflexivity. Qed.
+Lemma start_everyg defs n k rho x elems css st : start defs (S n) (CEveryg k rho x elems css) st =
+  (let '(cs, nv) := everyg_mk defs k rho x css elems (st_nextv st) in start defs n (from_iter k cs) (set_nextv st nv)).
+Proof. reflexivity. Qed.
+Lemma everyg_scope defs k rho x css : forall es m, envb m rho -> Forall (tb m) es ->
+  m <= snd (everyg_mk defs k rho x css es m) /\ Forall (gb (snd (everyg_mk defs k rho x css es m))) (fst (everyg_mk defs k rho x css es m)).
+Proof.
+  induction es as [|e r IH]; intros m He Ht; [split; [cbn; lia|constructor]|]. rewrite everyg_mk_cons.
+  inversion Ht as [|? ? Te Tr]; subst.
+  assert (He' : envb m ((x, e) :: rho)).
+  { intros y t [E|Hin]; [inversion E; subst; exact Te|apply (He y t Hin)]. }
+  pose proof (elab_scope defs efuel k ((x, e) :: rho) (GConj (map GConj css)) m He') as [L1 B1].
+  destruct (elab defs efuel k ((x, e) :: rho) (GConj (map GConj css)) m) as [c n1]. cbn [fst snd] in *.
+  assert (He1 : envb n1 rho) by (intros y t Hin; eapply tb_mono; [exact L1|apply (He y t Hin)]).
+  assert (Tr1 : Forall (tb n1) r) by (eapply Forall_impl; [|exact Tr]; intros t Ht'; eapply tb_mono; eauto).
+  destruct (IH n1 He1 Tr1) as [L2 B2].
+  destruct (everyg_mk defs k rho x css r n1) as [cs n2]. cbn [fst snd] in *.
+  split; [lia|]. constructor; [eapply gb_mono; eauto|exact B2].
+Qed.
 
 Section RelC.
 Variable defs : list (nat * def).
@@ -108,7 +141,14 @@ Inductive DenV : nat -> val -> cgoal -> Prop :=
     (forall m th0, envb m rho -> (forall x t, In (x, t) rho -> app th0 t = app th t) ->
        exists th', agree m th0 th' /\ DenV k th' (fst (elab defs efuel kd rho (GConj gs) m)) /\
                    flatV (fst (elab defs efuel kd rho (GConj gs) m))) ->
-    DenV (S k) th (CClosure kd rho gs).
+    DenV (S k) th (CClosure kd rho gs)
+(* for x in elems { .. }: the conjunction of the bodies, one per element, elaborated when the loop is reached *)
+| V_everyg k th kd rho x elems css :
+    (forall m th0, envb m rho -> Forall (tb m) elems ->
+       (forall y t, In (y, t) rho -> app th0 t = app th t) -> map (app th0) elems = map (app th) elems ->
+       exists th', agree m th0 th' /\ DenV k th' (from_iter kd (fst (everyg_mk defs kd rho x css elems m))) /\
+                   flatV (from_iter kd (fst (everyg_mk defs kd rho x css elems m)))) ->
+    DenV (S k) th (CEveryg kd rho x elems css).
 
 Lemma map_app_agree n th th' args : agree n th th' -> Forall (tb n) args -> map (app th) args = map (app th') args.
 Proof. intros A. induction 1; cbn [map]; [reflexivity|]. rewrite IHForall, (proj1 (app_agree n th th' A) x H). reflexivity. Qed.
@@ -129,6 +169,9 @@ Proof.
   - constructor. apply IHHD; [exact A|exact B].
   - constructor. rewrite <- (map_app_agree n th th' args A B). exact H.
   - constructor. intros m th0 He Hv. apply (H m th0 He). intros x t Hin. rewrite (Hv x t Hin). symmetry. apply AP. apply (B x t Hin).
+  - destruct B as [B1 B2]. constructor. intros m th0 He Ht Hv Hm. apply (H m th0 He Ht).
+    + intros y t Hin. rewrite (Hv y t Hin). symmetry. apply AP. apply (B1 y t Hin).
+    + rewrite Hm. symmetry. apply (map_app_agree n th th' elems A B2).
 Qed.
 
 Lemma DenV_eq_inv k th u v : DenV k th (CEq u v) -> app th u = app th v. Proof. inversion 1; auto. Qed.
@@ -143,6 +186,13 @@ Lemma DenV_call_inv k th kd r args : DenV k th (CCall kd r args) -> RelV k r (ma
 Lemma DenV_closure_inv k th kd rho gs : DenV k th (CClosure kd rho gs) -> exists k', k = S k' /\
   forall m th0, envb m rho -> (forall x t, In (x, t) rho -> app th0 t = app th t) ->
     exists th', agree m th0 th' /\ DenV k' th' (fst (elab defs efuel kd rho (GConj gs) m)) /\ flatV (fst (elab defs efuel kd rho (GConj gs) m)).
+Proof. inversion 1; subst. eexists. split; [reflexivity|assumption]. Qed.
+
+Lemma DenV_everyg_inv k th kd rho x elems css : DenV k th (CEveryg kd rho x elems css) -> exists k', k = S k' /\
+  forall m th0, envb m rho -> Forall (tb m) elems ->
+    (forall y t, In (y, t) rho -> app th0 t = app th t) -> map (app th0) elems = map (app th) elems ->
+    exists th', agree m th0 th' /\ DenV k' th' (from_iter kd (fst (everyg_mk defs kd rho x css elems m))) /\
+                flatV (from_iter kd (fst (everyg_mk defs kd rho x css elems m))).
 Proof. inversion 1; subst. eexists. split; [reflexivity|assumption]. Qed.
 
 (* what completeness means for one goal started in one state *)
@@ -228,6 +278,17 @@ Proof.
     exists a, th2. split; [eapply agree_trans; eauto|]. split; [exact G2|]. split; [exact S2|]. split; [lia|].
     intros n. destruct n as [|n]; [apply ISe_err|]. cbn [start]. rewrite Ee. apply I2.
   - (* call *) subst k0. apply DenV_call_inv in HD. apply HCall; assumption.
+  - (* for *) subst k0. apply DenV_everyg_inv in HD as [k' [Ek P]]. destruct HB as [HB1 HB2].
+    destruct (P (st_nextv st) th HB1 HB2 (fun _ _ _ => eq_refl) eq_refl) as [th' [A [HD' Hf']]].
+    pose proof (everyg_scope defs BFS rho x cs elems (st_nextv st) HB1 HB2) as [L Bc].
+    destruct (everyg_mk defs BFS rho x cs elems (st_nextv st)) as [gs nv] eqn:Ee. cbn [fst snd] in *.
+    assert (Bi : gb nv (from_iter BFS gs)) by (apply (s_from_iter (Agb nv) I I); exact Bc).
+    assert (G1 : Good3 th' (set_nextv st nv)).
+    { destruct G as [HM HG]. split; [|exact HG]. apply (MstG_agree (st_nextv st) th th' st A B) in HM. exact HM. }
+    destruct (HLate k' Ek (from_iter BFS gs) th' (set_nextv st nv) HD' Hf' G1 (stb_nextv st nv L B) Bi) as [a [th2 [A2 [G2 [S2 [L2 I2]]]]]].
+    cbn [set_nextv st_nextv] in A2, L2.
+    exists a, th2. split; [eapply agree_trans; eauto|]. split; [exact G2|]. split; [exact S2|]. split; [lia|].
+    intros n. destruct n as [|n]; [apply ISe_err|]. rewrite start_everyg, Ee. apply I2.
   - (* dom *) apply DenV_dom_inv in HD.
     apply (op_claim (fun th => exists z, numv th x z /\ mem d z) st (post_domain x d st)); auto.
     + apply post_domain_C; [apply G|exact Hf].
